@@ -43,20 +43,21 @@ type RegOp struct {
 }
 
 type C20Case struct {
-	Role      string    `json:"role"`
-	Buf       int       `json:"buf"`
-	N         int       `json:"n"`
-	Senders   [][]int64 `json:"senders"` // per goroutine: virtual delay before each send
-	Peer      []PeerOp  `json:"peer"`
-	SilentAt  int64     `json:"silent_at"`  // the peer goes silent at this instant ...
-	SilentFor int64     `json:"silent_for"` // ... for this long (timers expire), then answers
-	PollNs    int64     `json:"poll_ns"`    // IsLogged polling period (0: none)
-	Regs      []RegOp   `json:"regs"`
-	StopKind  string    `json:"stop_kind"` // none | session-stop | handler-stop | serve-close
-	StopAt    int64     `json:"stop_at"`
-	Horizon   int64     `json:"horizon"`
-	Siblings  int       `json:"siblings"`    // acceptor: further connections accepted at the same moment, their sessions built from the same session.Opts
-	LogonCbNs int64     `json:"logon_cb_ns"` // acceptor: virtual time the application's logon callback takes (senders and timers run meanwhile)
+	Role        string    `json:"role"`
+	Buf         int       `json:"buf"`
+	N           int       `json:"n"`
+	Senders     [][]int64 `json:"senders"` // per goroutine: virtual delay before each send
+	Peer        []PeerOp  `json:"peer"`
+	SilentAt    int64     `json:"silent_at"`  // the peer goes silent at this instant ...
+	SilentFor   int64     `json:"silent_for"` // ... for this long (timers expire), then answers
+	PollNs      int64     `json:"poll_ns"`    // IsLogged polling period (0: none)
+	Regs        []RegOp   `json:"regs"`
+	StopKind    string    `json:"stop_kind"` // none | session-stop | handler-stop | serve-close
+	StopAt      int64     `json:"stop_at"`
+	Horizon     int64     `json:"horizon"`
+	Siblings    int       `json:"siblings"`               // acceptor: further connections accepted at the same moment, their sessions built from the same session.Opts
+	SharedStore bool      `json:"shared_store,omitempty"` // the sessions of all connections use ONE memory.Storage
+	LogonCbNs   int64     `json:"logon_cb_ns"`            // acceptor: virtual time the application's logon callback takes (senders and timers run meanwhile)
 }
 
 func genC20(t *rapid.T) *C20Case {
@@ -102,6 +103,14 @@ func genC20(t *rapid.T) *C20Case {
 	if c.Role == "acceptor" {
 		c.LogonCbNs = rapid.SampledFrom([]int64{0, 0, 1000, 1e6, 50e6}).Draw(t, "logonCbNs")
 		c.Siblings = rapid.SampledFrom([]int{0, 0, 1, 2}).Draw(t, "siblings")
+		// ONE bundled store for the sessions of all connections, as examples/acceptor wires them (not together
+		// with ResendRequests: the bundled store keeps message objects, and a retransmission of another
+		// session's object while that session is still sending it is the known reused-object finding)
+		resends := false
+		for _, op := range c.Peer {
+			resends = resends || op.Kind == "resend"
+		}
+		c.SharedStore = c.Siblings > 0 && !resends && rapid.Bool().Draw(t, "sharedStore")
 	}
 	return c
 }
@@ -206,6 +215,9 @@ func checkC20(c *C20Case, rec *evid.Rec) (vs []pbt.Violation) {
 			opts := rig.OptsFor(cfg) // one options object for the sessions of all connections, as acceptor applications do
 			ar = rig.StartAcceptor(c.Buf, time.Minute, func(h simplefixgo.AcceptorHandler) {
 				st := memory.NewStorage()
+				if c.SharedStore {
+					st = store
+				}
 				s, err := rig.AcceptorSessionOpts(opts, cfg, h, st, st)
 				if err != nil {
 					panic(err)
@@ -426,6 +438,9 @@ func checkC20(c *C20Case, rec *evid.Rec) (vs []pbt.Violation) {
 	}
 	if c.Siblings > 0 {
 		rec.Hist("sibling-connections-sharing-opts")
+	}
+	if c.SharedStore {
+		rec.Hist("sibling-connections-sharing-one-store")
 	}
 	for _, k := range kinds {
 		rec.Hist("activity:" + k)
